@@ -39,6 +39,14 @@ def is_sym(a):
     return isinstance(a, np.ndarray) and a.dtype == object
 
 
+def to_np(x):
+    """numpy view of a concrete value; PRNG-key (extended dtype) arrays stay jax arrays"""
+    try:
+        return np.asarray(x)
+    except TypeError:
+        return x
+
+
 def snap(x):
     """float -> the exact Fraction it denotes, except that floats within 1e-13 (relative) of an
     integer, of p/q with q <= 10^4, or of 1/n are read as that rational (assumption A7: such
@@ -382,10 +390,10 @@ class Interp:
             return env[v]
 
         for v, c in zip(jaxpr.constvars, consts):
-            env[v] = c if is_sym(c) else np.asarray(c)
+            env[v] = c if is_sym(c) else to_np(c)
         assert len(jaxpr.invars) == len(args), (len(jaxpr.invars), len(args))
         for v, a in zip(jaxpr.invars, args):
-            env[v] = a if is_sym(a) else np.asarray(a)
+            env[v] = a if is_sym(a) else to_np(a)
         for e in jaxpr.eqns:
             invals = [read(v) for v in e.invars]
             out = self.eval_eqn(e, invals)
@@ -395,7 +403,7 @@ class Interp:
 
     def bind_concrete(self, e, invals):
         o = e.primitive.bind(*[jnp.asarray(a) for a in invals], **e.params)
-        return [np.asarray(x) for x in o] if e.primitive.multiple_results else [np.asarray(o)]
+        return [to_np(x) for x in o] if e.primitive.multiple_results else [to_np(o)]
 
     def eval_eqn(self, e, invals):
         name = e.primitive.name
@@ -430,7 +438,7 @@ class Interp:
             R = self.batched(lambda M: dom.qr_r(M), [invals[0]], [2])
             return [None, R]
         if not anysym:
-            floaty = any(np.issubdtype(np.asarray(a).dtype, np.floating) for a in invals)
+            floaty = any(isinstance(a, np.ndarray) and np.issubdtype(a.dtype, np.floating) for a in invals)
             if not (name in EXACT and floaty and dom.exact_concrete):
                 return self.bind_concrete(e, invals)
         # ---------------- symbolic (or exact-concrete) evaluation
